@@ -1456,6 +1456,18 @@ dialer_start_pipe(nni_dialer *d, nni_pipe *p)
 			    nni_pipe_sock_id(p),
 			    nni_pipe_peer_str_addr(p, addr));
 		}
+		// If the pipe was closed and already taken off the socket
+		// before we recorded it as the dialer's pipe above, then
+		// nni_pipe_remove did not recognize it and did not schedule
+		// the redial; do that here.  (Exactly one of the two sees
+		// d_pipe == p, both under s_mx.)
+		nni_mtx_lock(&s->s_mx);
+		if ((d->d_pipe == p) &&
+		    (!nni_list_node_active(&p->p_sock_node))) {
+			d->d_pipe = NULL;
+			dialer_timer_start_locked(d);
+		}
+		nni_mtx_unlock(&s->s_mx);
 		nni_pipe_rele(p);
 		return;
 	}
